@@ -72,6 +72,9 @@ func (g *gen) call(instr ssa.Instruction, c *ssa.CallCommon, pos token.Pos) Val 
 		if ctr == nil {
 			ctr = g.e.ext[full]
 		}
+		if ctr == nil {
+			ctr = g.e.ifaceMethodContract(c.Value.Type(), c.Method.Name())
+		}
 		g.callSiteClauses(key, append([]Val{recv}, args...), c, pos)
 		if ctr != nil {
 			return g.applyContract(ctr, key, sig, recv, args, nil, pos)
@@ -1042,4 +1045,14 @@ func (g *gen) sprintfConcat(c *ssa.CallCommon) (Val, bool) {
 		return strVal(parts[0]), true
 	}
 	return strVal(app("str.++", parts...)), true
+}
+
+// ifaceMethodContract finds a contract written for "<pkg>.*.<Method>": one contract for a method that several
+// interfaces of a package share (the astwalk visitor interfaces all embed EnterFile/EnterFunc/skipChilds).
+func (e *Engine) ifaceMethodContract(t types.Type, method string) *Contract {
+	n, ok := types.Unalias(t).(*types.Named)
+	if !ok || n.Obj().Pkg() == nil {
+		return nil
+	}
+	return e.ctrs[shortPkg(n.Obj().Pkg().Path())+".*."+method]
 }
